@@ -11,6 +11,7 @@ import (
 	"pgregory.net/rapid"
 
 	"verifharness/ctlsim"
+	"verifharness/simhap"
 	"verifharness/hapcfg"
 	"verifharness/world"
 )
@@ -35,7 +36,8 @@ func c05Profile() Profile {
 
 // C05Case extends a history with "delete every ingress" and "revert" steps.
 type C05Case struct {
-	Hist HistCase `json:"hist"`
+	Hist   HistCase   `json:"hist"`
+	Faults []C12Fault `json:"faults,omitempty"` // optional transient failure per batch (file write or reload), see C12
 }
 
 func genC05(t *rapid.T) C05Case {
@@ -89,7 +91,22 @@ func genC05(t *rapid.T) C05Case {
 	if len(g.Excluded) > 0 {
 		c.Excluded = g.Excluded
 	}
-	return C05Case{Hist: c}
+	cc := C05Case{Hist: c}
+	// a quarter of the batches meet a transient failure; the property is then checked after the retry that succeeds
+	for range c.Batches {
+		f := C12Fault{}
+		if chanceT(t, "faulty", 25) {
+			f.Kind = rapid.SampledFrom([]string{"file", "file", "file", "reload"}).Draw(t, "fkind")
+			if f.Kind == "file" {
+				f.Pick = rapid.IntRange(0, 40).Draw(t, "fpick")
+			} else {
+				f.Pick, f.Mode = 1, simhap.FaultFail
+			}
+			f.Repeat = rapid.SampledFrom([]int{0, 0, 1}).Draw(t, "repeat")
+		}
+		cc.Faults = append(cc.Faults, f)
+	}
+	return cc
 }
 
 // templateBackends are the support backends the template emits on its own.
@@ -270,12 +287,30 @@ func execC05(cc C05Case) *Failure {
 	c := cc.Hist
 	st := getStats("C05")
 	fullAfterPartial, sawPartial, wiped := false, false, false
-	steps := 0
-	f := histRun(c, func(s *ctlsim.Sim, batch int, infos []ctlsim.StepInfo) *Failure {
-		steps += len(infos)
-		if err := stepErrors(infos); err != nil {
+	steps, retried := 0, 0
+	var active *poison
+	var curFault C12Fault
+	f := histRun2(c, func(s *ctlsim.Sim, batch int) {
+		curFault = C12Fault{}
+		if batch < len(cc.Faults) {
+			curFault = cc.Faults[batch]
+		}
+		injectFault(s, curFault, &active)
+	}, func(s *ctlsim.Sim, batch int, infos []ctlsim.StepInfo) *Failure {
+		if batch >= 0 && curFault.Kind != "" {
+			var attempts int
+			var failed bool
+			infos, attempts, failed = retryAfterFault(s, infos, curFault, &active)
+			if failed {
+				return failf("C05:update-error", "batch %d: the update still fails after the fault %+v was removed: %v", batch, curFault, infos[len(infos)-1].Err)
+			}
+			if attempts > 0 {
+				retried++
+			}
+		} else if err := stepErrors(infos); err != nil {
 			return failf("C05:update-error", "batch %d: update failed: %v", batch, err)
 		}
+		steps += len(infos)
 		for _, in := range infos {
 			if batch >= 0 {
 				partial := false
@@ -295,7 +330,7 @@ func execC05(cc C05Case) *Failure {
 			wiped = true
 		}
 		if f := c05Compare(s); f != nil {
-			f.Msg = fmt.Sprintf("after batch %d (shards=%d): %s\nhistory:\n%s", batch, c.Params.Shards, f.Msg, describeBatches(c))
+			f.Msg = fmt.Sprintf("after batch %d (shards=%d, fault %+v): %s\nhistory:\n%s", batch, c.Params.Shards, curFault, f.Msg, describeBatches(c))
 			return f
 		}
 		return nil
@@ -307,6 +342,10 @@ func execC05(cc C05Case) *Failure {
 	if wiped {
 		labels = append(labels, "all-ingresses-deleted")
 	}
+	if retried > 0 {
+		labels = append(labels, "update-failed-then-retried")
+	}
+	st.Count("updates_retried_after_fault", retried)
 	st.Case(cc, (fullAfterPartial || wiped) && c.Params.Shards > 0, labels...)
 	st.Count("reconcile_steps", steps)
 	return f
